@@ -33,20 +33,29 @@ CFG = {
                       "the request to ValidatorAddrsWatch::update; skips the request when there is no schedule) and the reader "
                       "in consensus/mod.rs (dials ValidatorAddrs::get(peer).msg.addr) are not driven by the harness - it drives "
                       "ValidatorAddrsWatch directly and checks get() == current() entry; (2) ValidatorAddrs::get_newer (what is "
-                      "pushed to peers) is pub(super) and outside the property; (3) concurrency: update/announce serialise on "
-                      "the watch mutex, the model is sequential. Boundary recorded, not a peer-reachable failure: announce() "
+                      "pushed to peers) is pub(super) and outside the property; (3) concurrency: the model applies "
+                      "update/announce atomically; that the real calls serialise on the watch's sender lock is exercised by "
+                      "the `contended` ops (2-3 overlapping calls queued on the held lock in a chosen order, both queue orders "
+                      "compared), not proved - schedules beyond 'every call is atomic, in lock-queue order' are outside the "
+                      "model. Boundary recorded, not a peer-reachable failure: announce() "
                       "computes version+1 in u64; with a stored own entry of version 2^64-1 (needs the node's own signature) it "
                       "wraps to 0 in release (theorem announce_wraps_at_u64_max, histogram key announce:wrap_at_u64_max) and "
                       "panics with overflow checks; run_never_decreases carries the NoOverflow hypothesis for announce only.",
         "harness": "c18",
         "n": {"quick": 400, "thorough": 20000},
-        "rule": "N cases (N = 400 quick), each a fresh book and 4-18 operations: 3 of 4 cases are mixed sequences of batches "
+        "rule": "N cases (N = 400 quick), each a fresh book and 4-18 operations: half of the cases are mixed sequences of batches "
                 "(1-6 entries drawn from a pool of ~200 honest announcements over 6 keys, committee usually {0..4}, sometimes "
                 "changing) from 8 families - honest random, honest fresh, forged fresh member entry placed after valid ones, "
                 "forged stale entry, duplicated key (valid/stale/forged second, optionally plus a forged fresh entry to fix "
                 "the order of the two errors), (version,timestamp) ties and exact re-delivery, non-member entries (valid, "
                 "forged, duplicated), extreme versions (0..2^64-1) and timestamps (i64 range, negative, sub-second) - "
-                "optionally interleaved with own announce() calls; every 4th case is a twin pair (same announcements "
+                "optionally interleaved with own announce() calls; every 4th case is a contended pair (setup, then 2-3 "
+                "update()/announce() calls that overlap: the harness holds the book's sender lock, polls each call once so "
+                "that they queue on the fair FIFO lock in the listed order, releases it and polls them to completion in a "
+                "seeded order; variants: same validator with 2 or 3 versions, different validators, a forged batch next to a "
+                "valid one, duplicated-key + valid + stale re-delivery, announce racing with a higher received version, "
+                "random batches; then the same calls in another queue order on a second book and stash/converge); every 4th "
+                "case is a twin pair (same announcements "
                 "shuffled and re-partitioned for two books, optional rejected batches in between, then stash/converge); two "
                 "directed cases put the node's own announcement at version 2^64-2 / 2^64-1 and announce twice. An op counts "
                 "as non-trivial if its observation class is not the modal one; distinct = distinct op lines.",
@@ -55,12 +64,14 @@ CFG = {
                     "symbolic signature model: verify(a) iff signer = a.key and signed message = a.msg (BLS unforgeability, "
                     "deterministic signing)"],
         "assumptions": ["im::HashMap get/insert behave as a finite map; tokio watch: send_replace publishes the value and marks "
-                        "receivers changed; sync::Mutex serialises update/announce",
+                        "receivers changed; tokio's Mutex is fair (FIFO): calls acquire the sender lock in the order of their "
+                        "first poll (the contended ops rely on this to predict the exact result)",
                         "time::Utc / time::Duration compare as (whole seconds, sub-second nanoseconds) lexicographically "
                         "(derived Ord, sign-consistent representation)",
                         "release profile: u64 `version + 1` in announce wraps (harness profile has overflow-checks off)"],
         "explanation": "theorems over the hand-written model of the address book for all inputs; K compares the real "
                        "ValidatorAddrsWatch (update / announce / current through the verif hook) with the model op by op; S "
                        "checks authenticity, membership, monotonicity, rejected-batch-no-change, accept/reject ground truth "
-                       "and convergence of twin books on the real implementation",
+                       "and convergence of twin books on the real implementation; for overlapping calls: stored = maximum of the "
+                       "accepted entries, a rejected batch leaves no trace, both queue orders converge",
     }
